@@ -66,6 +66,7 @@ static void st_trace_hook(int phase, int dtype, int jcol, double u, int usepr, i
  * goes on with the case (for experiments only). */
 #define ST_MAXHANG 3
 static int g_case_hangs;
+static int g_idx64_unaligned;   /* see st_ws_allowed */
 static sigjmp_buf g_wd_jmp; static volatile sig_atomic_t g_wd_armed; static int g_wd_exit = 1, g_wd_exit_run; static char g_wd_what[160];
 static void st_on_alarm(int sig) {
     if (g_wd_armed && !g_wd_exit && !g_wd_exit_run && sig == SIGPROF) { g_wd_armed = 0; siglongjmp(g_wd_jmp, 1); }
@@ -80,6 +81,7 @@ static void st_wd_install(const ctx_t *c) {
     struct sigaction sa; memset(&sa, 0, sizeof sa); sa.sa_handler = st_on_alarm; sa.sa_flags = SA_NODEFER;
     sigaction(SIGPROF, &sa, NULL); sigaction(SIGALRM, &sa, NULL);
     g_wd_exit = strcmp(ctx_arg(c, "wd", "exit"), "jmp") != 0;
+    g_idx64_unaligned = (int)ctx_argl(c, "idx64_unaligned", 0);
 }
 static void st_wd_arm(long ms) {
     struct itimerval it; memset(&it, 0, sizeof it); it.it_value.tv_sec = ms / 1000; it.it_value.tv_usec = (ms % 1000) * 1000;
@@ -119,6 +121,16 @@ static char *st_work_alloc(long lwork, int align4, char **block) {
 static long st_guard_bad(const char *block, int align4) {
     if (!align4 || !block) return 0;
     uint32_t g; memcpy(&g, block, 4); return g != GUARD4;
+}
+
+/* 64-bit index builds: the library does not align its int_t arrays inside a workspace (only the scalar arrays get
+ * a DoubleAlign fix-up), so a workspace that is 4 (mod 8), and any workspace in single precision (LSUB follows
+ * UCOL, whose byte length is then only a multiple of 4), gives misaligned int_t accesses (UBSan: "store to
+ * misaligned address ... for type 'int_t'", reported as defect D11b).  Unless idx64_unaligned=1 is given these
+ * configurations are left out in such builds so that the rest can be checked. */
+static int st_ws_allowed(int align4, int scalar_bytes) {
+    if (sizeof(int_t) <= 4 || g_idx64_unaligned) return 1;
+    return !align4 && scalar_bytes >= 8;
 }
 
 /* FNV-1a over raw bytes (used to summarise factors in the exhaustive sweeps) */
